@@ -229,7 +229,14 @@ fn marker_text(path: &str, root: &str) -> Vec<u8> {
 fn directive_text(directive: &str, url: &str, sass: bool, form: u64) -> String {
     let semi = if sass { "" } else { ";" };
     match directive {
-        "import" => format!("@import \"{}\"{}\n", url, semi),
+        // plain-CSS members next to the URL under test in one rule: they are emitted, never looked
+        // up, and do not change how their neighbour is classified
+        "import" => match form % 6 {
+            1 => format!("@import \"zz-plain.css\", \"{}\"{}\n", url, semi),
+            2 => format!("@import \"{}\", url(zz-plain.css){}\n", url, semi),
+            3 => format!("@import \"//cdn.example/zz\", \"{}\", \"zz-plain.css\" screen{}\n", url, semi),
+            _ => format!("@import \"{}\"{}\n", url, semi),
+        },
         "use" => match form % 4 {
             1 => format!("@use \"{}\" as *{}\n", url, semi),
             _ => format!("@use \"{}\" as u{}\n", url, semi),
@@ -265,7 +272,8 @@ fn gen_case(rng: &mut Rng, root: &str) -> ImportCase {
     let dir = *rng.pick(&["", "", "a", "a/b", "lp1"]);
     let directive = *rng.pick(&["import", "import", "use", "use", "forward", "load-css"]);
     // URL
-    let name = *rng.pick(&["foo", "foo", "bar", "foo.bar", "x.y.z", "lib"]);
+    // ("httpx" and "urlish" only look like the beginning of a plain-CSS import)
+    let name = *rng.pick(&["foo", "foo", "bar", "foo.bar", "x.y.z", "lib", "httpx", "urlish"]);
     // (`../../` leaves the directory of an importer at the root by two levels: legal, and the
     // shape on which hand-written path normalisation goes wrong)
     let prefix = *rng.pick(&["", "", "", "", "sub/", "../", "./", "sub/../", "../../", "sub/../../"]);
@@ -483,6 +491,8 @@ fn gen_plain_case(rng: &mut Rng, root: &str) -> ImportCase {
         ("@import \"foo\" screen;", "foo"),
         ("@import \"foo\" supports(display: grid);", "foo"),
         ("@import \"bar.css\" print;", "bar.css"),
+        // the last path component is nothing but the extension
+        ("@import \"theme/.css\";", "theme/.css"),
     ];
     let n = rng.range(1, 3) as usize;
     let mut text = String::new();
@@ -497,7 +507,7 @@ fn gen_plain_case(rng: &mut Rng, root: &str) -> ImportCase {
     let entry = join(root, "main.scss");
     let mut files = vec![(entry.clone(), text.into_bytes())];
     // files that a wrong classification would load
-    for f in ["foo.css", "foo.scss", "_foo.scss", "bar.css", "foo.css.scss", "example.com/foo.scss"] {
+    for f in ["foo.css", "foo.scss", "_foo.scss", "bar.css", "foo.css.scss", "example.com/foo.scss", "theme/.css.scss", "theme/_.css.scss", "theme/.css"] {
         if rng.chance(0.6) {
             let p = join(root, f);
             files.push((p.clone(), marker_text(&p, root)));
@@ -613,7 +623,7 @@ fn judge(case: &ImportCase, r: &JobResult, breaches: &[String]) -> Vec<(String, 
                 match (&w1, &w2) {
                     (Some(a), Some(b)) => {
                         // `@import "u", "u"` in the first importer is two loads from that file
-                        let dbl = case.job.files.iter().any(|(p, t)| normalize(&case.job.cwd, p) == normalize(&case.job.cwd, &case.importer) && String::from_utf8_lossy(t).contains("\", \""));
+                        let dbl = case.job.files.iter().any(|(p, t)| normalize(&case.job.cwd, p) == normalize(&case.job.cwd, &case.importer) && String::from_utf8_lossy(t).contains(&format!("\"{}\", \"{}\"", case.url, case.url)));
                         let exp = if dbl { vec![a.clone(), a.clone(), b.clone()] } else { vec![a.clone(), b.clone()] };
                         let once = a == b && seen == vec![a.clone()];
                         if seen != exp && !once {
